@@ -24,6 +24,9 @@ func checkC03(c *Ctx) {
 	r034(c)
 	r035(c)
 	r036(c)
+	// held requests choose their balancer only after the gate (shared with C07)
+	r073(c, "R03.7 balancer-chosen-after-the-gate")
+	r171b(c)
 }
 
 func isLoadOfGlobal(v ssa.Value, g *ssa.Global) bool {
